@@ -97,6 +97,22 @@ def ds_equal(decoded, supplied, drop_aff=False):
     return decoded == want
 
 
+def handler_raises(h):
+    return h[0] == "fr" or (h[0] == "gen" and any(it[0] == "r" for it in h[1:]))
+
+
+def well_formed(svc, h, env):
+    """the value the SCP was working on has the documented shape (what C20 calls a value that unpacks)"""
+    from harness.props import c20
+
+    return not c20.bad_shape(svc, h, c20.consumed_values(svc, h, env))
+
+
+def interrupted(real):
+    env = real["env"]
+    return (not env.est) or env.peer_abort or env.peer_release
+
+
 def oracle(svc, handler, real, inst=True, msg_id=7):
     out = []
     name, op, prim = svc["name"], svc["op"], svc["prim"]
@@ -105,7 +121,11 @@ def oracle(svc, handler, real, inst=True, msg_id=7):
     rs = real["raw"]
     table = real["table"]
     if real["crashed"]:
-        return out  # C20's subject
+        # an exception escaping the SCP is C20's subject; here it matters when the handler itself behaved
+        # (returned / yielded values, raised nothing): its result then got no documented status at all
+        if not handler_raises(handler) and well_formed(svc, handler, env) and not interrupted(real):
+            out.append((f"{name}:result-got-no-response", f"the handler returned normally but {real.get('exc')!r} escaped the SCP: no status for its result"))
+        return out
     # ------------------------------------------------------------- single-response services
     if op in ("scp.echo", "scp.store", "scp.n"):
         if not rs:
